@@ -101,7 +101,11 @@ func (c vkCfg) String() string {
 //	twons    the parent's referral for c.p. lists a second, glue-less NS host (provisional delegation entries, NS address
 //	         lookup through the delegation being established); that lookup takes 3 virtual seconds
 //	lagval   (DNSSEC) the DNSKEY exchange that validates a referral takes 3 virtual seconds (validation latency)
-var vkBehaviours = []string{"honest", "authns", "bigttl", "tinyttl", "selfref", "twons", "lagval"}
+//	unsupds  (DNSSEC) the DS RRset p. publishes for c.p. — in the referral and in DS answers — holds ONLY a record this
+//	         validator cannot use (digest type 3, GOST R 34.11-94), correctly signed by p.: the child is insecure
+//	         (RFC 6840 §5.2), but the DS RRset is still what the parent granted, so its TTL bounds the lease like any other
+//	unsupalg (DNSSEC) same with a SHA-256 DS for DNSKEY algorithm 16 (Ed448), which the validator cannot verify either
+var vkBehaviours = []string{"honest", "authns", "bigttl", "tinyttl", "selfref", "twons", "lagval", "unsupds", "unsupalg"}
 
 // ---------------------------------------------------------------- exchanges
 
@@ -301,6 +305,11 @@ func (w *vkWorld) honest(server string, q dns.Question, do bool) *dns.Msg {
 	m = m.Copy()
 	e := vkExchange{Server: server, QName: zonemodel.Canon(q.Name), QType: q.Qtype, At: at}
 
+	// the parent's DS RRset for c.p. made unusable (and re-signed by p.)
+	if (cfg.Beh == "unsupds" || cfg.Beh == "unsupalg") && server == vkSrvP {
+		w.unusableDS(m, phase, cfg.Beh)
+	}
+
 	// child behaviours
 	switch {
 	case cfg.Beh == "selfref" && server == vkSrvCOld && phase != vkPhaseOrig:
@@ -418,6 +427,57 @@ func (w *vkWorld) honest(server string, q dns.Question, do bool) *dns.Msg {
 		vtime.Advance(time.Duration(e.Lag) * time.Second)
 	}
 	return m
+}
+
+// unusableDS replaces, in a response of p.'s server, the DS RRset of c.p. (authority section of a referral, answer
+// section of a DS answer) by a single DS the validator cannot use and p.'s signature over it by a genuine one over the
+// new RRset. Owner, class, TTL (rewritten later to the configured DS TTL) stay; everything else of the message too.
+func (w *vkWorld) unusableDS(m *dns.Msg, phase int, beh string) {
+	zp := w.u[phase].Zone(vkZoneP)
+	if zp == nil || zp.ZSK == nil {
+		return
+	}
+	fix := func(sec []dns.RR) []dns.RR {
+		var old *dns.DS
+		for _, rr := range sec {
+			if ds, ok := rr.(*dns.DS); ok && zonemodel.Canon(ds.Hdr.Name) == vkZoneC {
+				old = ds
+				break
+			}
+		}
+		if old == nil {
+			return sec
+		}
+		nds := &dns.DS{Hdr: old.Hdr, KeyTag: old.KeyTag, Algorithm: old.Algorithm, DigestType: 3, // GOST R 34.11-94: 32 octets
+			Digest: "00112233445566778899aabbccddeeff00112233445566778899aabbccddeeff"}
+		if beh == "unsupalg" {
+			nds.Algorithm, nds.DigestType, nds.Digest = 16, dns.SHA256, old.Digest // Ed448
+		}
+		// not zp.Sign: its cache is keyed by (owner, type, key, RRset size) and holds the signature of the genuine DS
+		sig := zonemodel.SignWith(zp.ZSK, vkZoneP, []dns.RR{nds}, w.u[phase].Now)
+		var out []dns.RR
+		done := false
+		for _, rr := range sec {
+			switch x := rr.(type) {
+			case *dns.DS:
+				if zonemodel.Canon(x.Hdr.Name) == vkZoneC {
+					if !done {
+						out, done = append(out, nds), true
+					}
+					continue
+				}
+			case *dns.RRSIG:
+				if x.TypeCovered == dns.TypeDS && zonemodel.Canon(x.Hdr.Name) == vkZoneC {
+					sig.Hdr.Ttl = x.Hdr.Ttl
+					out = append(out, sig)
+					continue
+				}
+			}
+			out = append(out, rr)
+		}
+		return out
+	}
+	m.Answer, m.Ns = fix(m.Answer), fix(m.Ns)
 }
 
 func vkA(name, addr string, ttl uint32) *dns.A {
